@@ -66,7 +66,10 @@ pub fn history(r: &mut Rng, res: &mut CaseResult, steps: usize) {
     let fp = if r.chance(1, 2) { r.range(200, 1500) } else { 0 };
     hooks::set_failpoint_delay(fp);
     let fp0 = hooks::failpoints_hit();
-    let (conn, h) = session::open_default(Reflex::default());
+    let mut reflex = Reflex::default();
+    // tags are unique per channel only: sometimes every channel uses the same ones
+    reflex.per_channel_tags = r.chance(1, 3);
+    let (conn, h) = session::open_with(reflex, session::default_opts(), amiquip::ConnectionTuning::default(), |_| {});
     let mut conn = match conn {
         Ok(c) => c,
         Err(e) => {
@@ -202,11 +205,11 @@ pub fn history(r: &mut Rng, res: &mut CaseResult, steps: usize) {
                     continue;
                 }
                 let ci = *r.pick(&cand);
-                let before = cancel_frames(&h, &cons[ci].tag);
+                let before = cancel_frames(&h, chans[cons[ci].actor].actor.id, &cons[ci].tag);
                 let rep = done_ok(chans[cons[ci].actor].actor.call(Cmd::Cancel(cons[ci].idx)));
                 // barrier so a (wrong) second Basic.Cancel would be on the wire by now
                 let _ = chans[cons[ci].actor].actor.call(Cmd::Rpc);
-                let after = cancel_frames(&h, &cons[ci].tag);
+                let after = cancel_frames(&h, chans[cons[ci].actor].actor.id, &cons[ci].tag);
                 if rep.is_err() || after != before {
                     res.violate("second_cancel_sent_something", format!("second cancel of {}: result {:?}, Basic.Cancel frames {} -> {}", cons[ci].tag, rep, before, after));
                     break;
@@ -439,7 +442,7 @@ pub fn history(r: &mut Rng, res: &mut CaseResult, steps: usize) {
     }
     // wire: Basic.Cancel at most once per tag, at least once if cancelled/dropped while open
     for c in &cons {
-        let n = cancel_frames(&h, &c.tag);
+        let n = cancel_frames(&h, chans[c.actor].actor.id, &c.tag);
         if n > 1 {
             res.violate("second_cancel_sent_something", format!("{} Basic.Cancel frames for {}", n, c.tag));
         }
@@ -492,11 +495,11 @@ fn short(m: &CMsg) -> String {
     }
 }
 
-fn cancel_frames(h: &crate::mock::Handle, tag: &str) -> usize {
+fn cancel_frames(h: &crate::mock::Handle, ch: u16, tag: &str) -> usize {
     h.peek(|st| {
         st.frames
             .iter()
-            .filter(|f| matches!(f.method(), Some(AMQPClass::Basic(B::Cancel(c))) if c.consumer_tag == tag))
+            .filter(|f| f.ch == ch && matches!(f.method(), Some(AMQPClass::Basic(B::Cancel(c))) if c.consumer_tag == tag))
             .count()
     })
 }
